@@ -6,7 +6,7 @@
    relates the two parser models textX builds for one grammar (autokwd off / on), as dumped by
    tools/pegdump.py, for EVERY pair of tables, text, oracles, fuel and memoization setting. *)
 From TxV Require Import Core.Base Model.PegSyntax Model.Peg Model.KwDefs Gen.SrcKw Model.Kw
-     Proofs.PegCongr Proofs.KwProofs Proofs.KwWitness.
+     Proofs.PegCongr Proofs.KwProofs Proofs.KwCheckProofs Proofs.KwWitness.
 
 (* (0) The facts of the current source are the ones the model transcribes. *)
 Theorem C21_source_is_modelled :
@@ -64,7 +64,7 @@ Print Assumptions C21_related_tables_parse_alike.
 
 (* (4) Same model: g = the table built without autokwd, g' = with autokwd.  If the tables differ only
    in keyword-like StrMatches of g being RegExMatches in g' whose oracle is <literal>\b
-   ([kw_tables_spec], decided per case by [kw_tables_ok]) and at no position of the text a
+   ([kw_tables_spec], decided per case by [kw_case_ok]) and at no position of the text a
    keyword-like literal of the grammar is immediately followed by a word character, then the
    autokwd parse and the plain parse give the same outcome. *)
 Theorem C21_same_model : forall wordc digitc lower g g' cfg orc orc' memo fuel input,
@@ -74,6 +74,19 @@ Theorem C21_same_model : forall wordc digitc lower g g' cfg orc orc' memo fuel i
   run g' cfg orc' memo fuel input = foutcome (kw_supf g g') (run g cfg orc memo fuel input).
 Proof. exact autokwd_same_model. Qed.
 Print Assumptions C21_same_model.
+
+(* (4') The decidable instance checks the harness evaluates per case are sound: when [kw_case_ok]
+   (the two dumped tables are related as above and the oracle rows Python computed for the keyword
+   regexes / ignore_case StrMatches are the rows kw_match / str_match predict) and [no_glue_ok] say
+   [true], the two parses coincide. *)
+Theorem C21_check_sound : forall wordc digitc lower input tbl tbl' g g' cfg memo fuel,
+  (forall a b, lower a = lower b -> wordc a = wordc b) ->
+  kw_case_ok wordc digitc lower input tbl tbl' g g' = true ->
+  no_glue_ok wordc digitc lower input g = true ->
+  run g' cfg (orc_of tbl') memo fuel input
+  = foutcome (kw_supf g g') (run g cfg (orc_of tbl) memo fuel input).
+Proof. exact kw_case_sound. Qed.
+Print Assumptions C21_check_sound.
 
 (* non-vacuity *)
 Example C21_kw_nonvacuous :
@@ -94,7 +107,7 @@ Print Assumptions C21_kw_nonvacuous.
    on "inx;" (glued keyword) both settings accept but the models differ, so the hypothesis of (4)
    cannot be dropped. *)
 Example C21_same_model_nonvacuous :
-  kw_tables_ok ascii_word ascii_digit ascii_lower in_in1 tbl_in1_plain tbl_in1_kw g_in_plain g_in_kw = true /\
+  kw_case_ok ascii_word ascii_digit ascii_lower in_in1 tbl_in1_plain tbl_in1_kw g_in_plain g_in_kw = true /\
   no_glue_ok ascii_word ascii_digit ascii_lower in_in1 g_in_plain = true /\
   accepted (run g_in_plain cfg_default (orc_of tbl_in1_plain) false 50 in_in1) = true /\
   run g_in_kw cfg_default (orc_of tbl_in1_kw) false 50 in_in1
